@@ -378,7 +378,7 @@ application_call:
 			if (_plogger && _plogger->has_flag(Logger::inbound))
 				plog(from, Logger::Info, 1);
 			slout_fatal << e.what() << " - will logoff";
-			if (_state == States::st_logon_received && !_loginParameters._silent_disconnect)
+			if (States::is_established(_state) && !_loginParameters._silent_disconnect)
 			{
 				do_state_change(States::st_session_terminated);
 				send(generate_logout(e.what()), true, 0, true); // so it won't increment
